@@ -81,6 +81,22 @@ CHECKS.update({
         'DESIGN.md section 4 C06'),
 })
 
+CHECKS.update({
+    'C07': (
+        'Coq proof (blur = Chebyshev dilation, ring composition, smear = incident faces, node-sharing buffer, contiguous '
+        'renumbering, monotonicity) + exhaustive vm_compute correspondence of the primitives',
+        'Theorems C07_* prove for every array shape, buffer size, mesh and face subset that blur_mask as coded is dilation by '
+        'the eight-neighbour ball (and s+1 rings = s rings then one), that smear marks exactly the edges / nodes of marked '
+        'faces with the right shapes, that buffer_faces adds exactly the node-sharing faces in face order, that kept elements '
+        'are renumbered contiguously in original order, and that enlarging mask or buffer never unmarks.  Per run: every boolean '
+        'array of the listed shapes (bit-pattern enumeration, all sizes / pad_axes) is pushed through masking.blur_mask / '
+        'smear_mask and the model; make_clip_mask of every convention x generated geometries x buffers and mesh face subsets '
+        'are compared with the model and with an independent dilation / ring oracle.',
+        'Trusted: Coq kernel; models Mask.v / UMask.v; which cells meet the geometry comes from Geom predicates validated '
+        'against GEOS per case (monotonicity in the geometry is therefore checked per case, not proved).',
+        'DESIGN.md section 4 C07'),
+})
+
 NOT_YET = 'check not built yet in this session (work in progress; the design in DESIGN.md section 4 applies)'
 
 
